@@ -1,5 +1,7 @@
 import Qhttp.Model.RouteScn
 import Qhttp.Props.C01
+import Qhttp.Lemmas.RouteSubst
+import Qhttp.Lemmas.RouteLemmas
 /-
   C05 — routing picks exactly one action, in the documented order.
 -/
@@ -113,5 +115,455 @@ def holds (env : Env) (sc : RouteScn) (obs : List Obs) : Bool :=
          | none => false)
       | some (.mw _ _) => true
   | _, _ => prs obs == [] && statusOf wire == some 500
+
+/-! ## Theorems -/
+
+open Qhttp.RouteL
+
+/-! ### `substitute` against the independent `specSubst` -/
+
+theorem mem_insertNat {x y : Nat} {s : List Nat} : y ∈ insertNat x s ↔ y = x ∨ y ∈ s := by
+  induction s with
+  | nil => simp [insertNat]
+  | cons z zs ih =>
+    simp only [insertNat]
+    split
+    · simp
+    · split
+      · next h => subst h; simp
+      · simp [ih]; constructor <;> (intro h; rcases h with h | h | h <;> simp [h])
+
+theorem mem_foldr_insertNat {y : Nat} {l : List Nat} : y ∈ l.foldr insertNat [] ↔ y ∈ l := by
+  induction l with
+  | nil => simp
+  | cons x xs ih => simp [List.foldr, mem_insertNat, ih]
+
+theorem insertNat_of_lt {n : Nat} {s : List Nat} (h : ∀ y ∈ s, n < y) : insertNat n s = n :: s := by
+  cases s with
+  | nil => rfl
+  | cons y ys => simp [insertNat, h y (by simp)]
+
+/-- the ascending list of distinct elements starts with the minimum -/
+theorem foldr_insertNat_min {n : Nat} {l : List Nat} (hn : n ∈ l) (hmin : ∀ k ∈ l, n ≤ k) :
+    l.foldr insertNat [] = n :: (l.filter (· ≠ n)).foldr insertNat [] := by
+  induction l with
+  | nil => simp at hn
+  | cons x xs ih =>
+    have hmin' : ∀ k ∈ xs, n ≤ k := fun k hk => hmin k (by simp [hk])
+    by_cases hx : x = n
+    · subst hx
+      simp only [List.foldr, ne_eq, not_true_eq_false, decide_false, Bool.false_eq_true,
+        not_false_eq_true, List.filter_cons_of_neg]
+      by_cases hin : x ∈ xs
+      · rw [ih hin hmin']; simp [insertNat]
+      · have hf : xs.filter (· ≠ x) = xs := by
+          apply List.filter_eq_self.2
+          intro k hk; simp; intro e; subst e; exact hin hk
+        simp only [ne_eq] at hf
+        rw [hf]
+        apply insertNat_of_lt
+        intro y hy
+        have hy' := mem_foldr_insertNat.1 hy
+        have := hmin' y hy'
+        have : y ≠ x := by intro e; subst e; exact hin hy'
+        omega
+    · have hin : n ∈ xs := by simpa [Ne.symm hx] using hn
+      have hlt : n < x := by have := hmin x (by simp); omega
+      simp only [List.foldr]
+      rw [ih hin hmin']
+      have : (x :: xs).filter (· ≠ n) = x :: xs.filter (· ≠ n) := by simp [hx]
+      rw [this]
+      simp only [List.foldr, insertNat]
+      have h1 : ¬ x < n := by omega
+      simp [h1, hx]
+
+theorem mem_escNums {k : Nat} {toks : List ArgTok} : k ∈ escNums toks ↔ ∃ raw, ArgTok.esc k raw ∈ toks := by
+  induction toks with
+  | nil => simp [escNums]
+  | cons t l ih =>
+    cases t with
+    | lit c => simp [escNums, ih]
+    | esc j raw =>
+      simp only [escNums, List.mem_cons, ih]
+      constructor
+      · rintro (rfl | ⟨r, hr⟩)
+        · exact ⟨raw, by simp⟩
+        · exact ⟨r, by simp [hr]⟩
+      · rintro ⟨r, hr⟩
+        simp at hr
+        rcases hr with ⟨rfl, _⟩ | hr
+        · simp
+        · exact Or.inr ⟨r, hr⟩
+
+theorem escNums_lits (a : QStr) (l : List ArgTok) : escNums (a.map .lit ++ l) = escNums l := by
+  induction a with
+  | nil => rfl
+  | cons c cs ih => simpa [escNums] using ih
+
+theorem escNums_expand (n : Nat) (a : QStr) (toks : List ArgTok) :
+    escNums (expand n a toks) = (escNums toks).filter (· ≠ n) := by
+  induction toks with
+  | nil => rfl
+  | cons t l ih =>
+    cases t with
+    | lit c => simpa [expand, escNums] using ih
+    | esc k raw =>
+      by_cases h : k = n
+      · simp [expand, escNums, h, escNums_lits, ih]
+      · simp [expand, escNums, h, ih]
+
+theorem markers_of_minEsc {toks : List ArgTok} {n : Nat} (h : minEsc toks = some n) (a : QStr) :
+    markers toks = n :: markers (expand n a toks) := by
+  obtain ⟨⟨raw, hr⟩, hmin⟩ := minEsc_some h
+  simp only [markers, escNums_expand]
+  apply foldr_insertNat_min
+  · exact mem_escNums.2 ⟨raw, hr⟩
+  · intro k hk
+    obtain ⟨r, hk⟩ := mem_escNums.1 hk
+    exact hmin k r hk
+
+theorem markers_of_minEsc_none {toks : List ArgTok} (h : minEsc toks = none) : markers toks = [] := by
+  have : escNums toks = [] := by
+    apply List.eq_nil_iff_forall_not_mem.2
+    intro k hk
+    obtain ⟨r, hk⟩ := mem_escNums.1 hk
+    exact minEsc_none h k r hk
+  simp [markers, this]
+
+theorem fillAll_lits (nums : List Nat) (caps : List QStr) (a : QStr) (l : List ArgTok) :
+    fillAll nums caps (a.map .lit ++ l) = a ++ fillAll nums caps l := by
+  induction a with
+  | nil => rfl
+  | cons c cs ih => simp [fillAll, ih]
+
+theorem fillAll_nil_nums (caps : List QStr) (toks : List ArgTok) : fillAll [] caps toks = render toks := by
+  induction toks with
+  | nil => rfl
+  | cons t l ih => cases t <;> simp [fillAll, render, ih, List.idxOf?]
+
+theorem fillAll_nil_caps (nums : List Nat) (toks : List ArgTok) : fillAll nums [] toks = render toks := by
+  induction toks with
+  | nil => rfl
+  | cons t l ih =>
+    cases t with
+    | lit c => simp [fillAll, render, ih]
+    | esc k raw => simp only [fillAll, render, ih]; cases nums.idxOf? k <;> simp
+
+/-- simultaneous substitution, one marker at a time -/
+theorem fillAll_cons (n : Nat) (rest : List Nat) (a : QStr) (as : List QStr) (toks : List ArgTok) :
+    fillAll (n :: rest) (a :: as) toks = fillAll rest as (expand n a toks) := by
+  induction toks with
+  | nil => rfl
+  | cons t l ih =>
+    cases t with
+    | lit c => simp [fillAll, expand, ih]
+    | esc k raw =>
+      by_cases h : k = n
+      · subst h; simp [fillAll, expand, fillAll_lits, ih, List.idxOf?_cons]
+      · have h' : ¬ n = k := fun e => h e.symm
+        simp only [fillAll, expand, h, if_false, ih, List.idxOf?_cons, beq_iff_eq, h']
+        cases rest.idxOf? k <;> simp
+
+theorem render_expandAll (caps : List QStr) :
+    ∀ toks, render (expandAll toks caps) = fillAll (markers toks) caps toks := by
+  induction caps with
+  | nil => intro toks; simp [expandAll, fillAll_nil_caps]
+  | cons a as ih =>
+    intro toks
+    simp only [expandAll]
+    cases hm : minEsc toks with
+    | none => simp [markers_of_minEsc_none hm, fillAll_nil_nums]
+    | some n => simp only [markers_of_minEsc hm a, fillAll_cons, ih]
+
+/-- **key lemma (general statement)**: sequential `QString::arg` equals the documented simultaneous
+    substitution whenever each round reads back as it was meant (`MarkerFree`, decidable; its
+    failure is known finding D12) -/
+theorem substitute_eq_specSubst (tmpl : QStr) (caps : List QStr) (h : MarkerFree tmpl caps = true) :
+    substitute tmpl caps = specSubst tmpl caps := by
+  rw [substitute_eq_render tmpl caps h, render_expandAll]; rfl
+
+/-- syntactic form: markers of the template separated, captures plain -/
+theorem substitute_eq_specSubst_of_separated (tmpl : QStr) (caps : List QStr)
+    (ht : Separated tmpl = true) (hc : ∀ a ∈ caps, Plain a = true) :
+    substitute tmpl caps = specSubst tmpl caps :=
+  substitute_eq_specSubst tmpl caps (markerFree_of_separated ht hc)
+
+/-- with at most one capture there is nothing to go wrong -/
+theorem substitute_one (tmpl a : QStr) : substitute tmpl [a] = specSubst tmpl [a] :=
+  substitute_eq_specSubst tmpl [a] (markerFree_one tmpl a)
+
+/-! ### 1. exactly one terminal action, at the end, iff nobody refused -/
+
+theorem terminal_append_single (l : List Act) (t : Act) (ht : isTerminalAct t = true) :
+    terminal (l ++ [t]) = some t := by
+  induction l with
+  | nil => cases t <;> simp_all [terminal, isTerminalAct]
+  | cons a l ih =>
+    cases hl : l ++ [t] with
+    | nil => simp at hl
+    | cons b r => simp only [List.cons_append, hl, terminal]; rw [← hl]; exact ih
+
+theorem terminal_map_mwAct (l : List (Nat × Bool)) : terminal (l.map mwAct) = none := by
+  induction l with
+  | nil => rfl
+  | cons e l ih =>
+    cases hl : l.map mwAct with
+    | nil => rw [List.map_cons, hl]; rfl
+    | cons b r => rw [List.map_cons, hl]; simp only [terminal]; rw [← hl]; exact ih
+
+theorem filter_terminal_map_mwAct (l : List (Nat × Bool)) : (l.map mwAct).filter isTerminalAct = [] := by
+  induction l with
+  | nil => rfl
+  | cons e l ih => simp [mwAct, isTerminalAct, ih]
+
+/-- shape of every routing run: the consulted middleware (all accepting), then either one terminal
+    action or one refusal — nothing else, for every tree, path, matcher and verdict assignment -/
+theorem route_shape (m : Matcher) (n : Node) (path : QStr) :
+    ∃ pre : List (Nat × Bool), allAccept pre = true ∧
+      ((∃ t, isTerminalAct t = true ∧ route m n path = pre.map mwAct ++ [t] ∧ noRefusal (route m n path) = true) ∨
+       (∃ id, route m n path = pre.map mwAct ++ [.mw id false] ∧ noRefusal (route m n path) = false)) := by
+  have hn := noRefusal_route m n path
+  rw [hn, route_struct, tailOf]
+  rcases ttfr_cases (chain m n path) with ⟨h1, h2⟩ | ⟨h1, pre, i, h2, h3⟩
+  · exact ⟨chain m n path, h1, Or.inl ⟨termOf m n path, termOf_terminal m n path, by simp [h1, h2], h1⟩⟩
+  · exact ⟨pre, h2, Or.inr ⟨i, by simp [h1, h3, mwAct], h1⟩⟩
+
+/-- **C05.1** at most one terminal action (`.redirect` / `.process`), it is the last element,
+    there is exactly one iff no consulted middleware refused, and every other element is `.mw` -/
+theorem route_terminal_count (m : Matcher) (n : Node) (path : QStr) :
+    ((route m n path).filter isTerminalAct).length = (if noRefusal (route m n path) then 1 else 0) ∧
+    (route m n path).dropLast.all (fun a => !isTerminalAct a) = true ∧
+    (∀ a ∈ route m n path, isTerminalAct a = true → (route m n path).getLast? = some a) ∧
+    ((terminal (route m n path)).isSome = noRefusal (route m n path)) := by
+  obtain ⟨pre, hp, ⟨t, ht, hr, hn⟩ | ⟨id, hr, hn⟩⟩ := route_shape m n path
+  · rw [hn, hr]
+    refine ⟨by simp [List.filter_append, filter_terminal_map_mwAct, ht], ?_, ?_, by simp [terminal_append_single _ _ ht]⟩
+    · simp [mwAct, isTerminalAct]
+    · intro a ha hta
+      rcases List.mem_append.1 ha with h | h
+      · obtain ⟨e, _, rfl⟩ := List.mem_map.1 h
+        simp [mwAct, isTerminalAct] at hta
+      · rw [List.mem_singleton.1 h]; exact List.getLast?_concat ..
+  · rw [hn, hr]
+    have : pre.map mwAct ++ [Act.mw id false] = (pre ++ [(id, false)]).map mwAct := by simp [mwAct]
+    refine ⟨?_, ?_, ?_, ?_⟩
+    · rw [this, filter_terminal_map_mwAct]; rfl
+    · simp [mwAct, isTerminalAct]
+    · intro a ha hta
+      rw [this] at ha
+      simp only [List.mem_map] at ha
+      obtain ⟨e, _, rfl⟩ := ha
+      simp [mwAct, isTerminalAct] at hta
+    · rw [this, terminal_map_mwAct]; rfl
+
+/-! ### 2. the terminal action is the documented one -/
+
+/-- the first firing redirect of the list is marker-free -/
+def redirMF (m : Matcher) (path : QStr) : List (Nat × QStr) → Bool
+  | [] => true
+  | (pat, tmpl) :: rest =>
+    match m pat path with
+    | some mt => MarkerFree tmpl mt.caps
+    | none => redirMF m path rest
+
+mutual
+  /-- the capture list the matcher returns for the redirect that fires on this route (if any) is
+      marker-free for its template -/
+  def routeMF (m : Matcher) : Node → QStr → Bool
+    | .mk _ _ reds subs _, path =>
+      if redirectFires m path reds then redirMF m path reds else subsMF m subs path
+  def subsMF (m : Matcher) : Subs → QStr → Bool
+    | .nil, _ => true
+    | .cons pat child rest, path =>
+      match m pat path with
+      | some mt => routeMF m child (path.drop mt.len)
+      | none => subsMF m rest path
+end
+
+theorem firstRedirect_eq_spec (m : Matcher) (path : QStr) (reds : List (Nat × QStr))
+    (h : redirMF m path reds = true) : firstRedirect m path reds = specRedirect m path reds := by
+  induction reds with
+  | nil => rfl
+  | cons r l ih =>
+    obtain ⟨pat, tmpl⟩ := r
+    simp only [firstRedirect, specRedirect, redirMF] at h ⊢
+    cases hm : m pat path with
+    | none => simp only [hm] at h; exact ih h
+    | some mt => simp only [hm] at h; simp [substitute_eq_specSubst _ _ h]
+
+mutual
+  theorem termOf_eq_spec (m : Matcher) : ∀ (n : Node) (path : QStr) (t : Act),
+      specRoute m n path = some t → routeMF m n path = true → termOf m n path = t
+    | .mk id mws reds subs own, path, t => by
+      rw [specRoute, routeMF, termOf]
+      have hfr := firstRedirect_isSome m path reds
+      by_cases hf : redirectFires m path reds = true
+      · simp only [hf, if_true]
+        intro hs hmf
+        rw [firstRedirect_eq_spec m path reds hmf] at hfr ⊢
+        cases hr : specRedirect m path reds with
+        | none => rw [hr, hf] at hfr; cases hfr
+        | some loc => rw [hr] at hs; simp only at hs ⊢; cases hs; rfl
+      · have hf' : redirectFires m path reds = false := by simpa using hf
+        simp only [hf', Bool.false_eq_true, if_false]
+        have hnone : firstRedirect m path reds = none := by
+          cases hr : firstRedirect m path reds with
+          | none => rfl
+          | some _ => rw [hr, hf'] at hfr; cases hfr
+        have hmf0 : redirMF m path reds = true := by
+          clear hfr hnone
+          induction reds with
+          | nil => rfl
+          | cons r l ih =>
+            obtain ⟨pat, tmpl⟩ := r
+            simp only [redirectFires, List.any_cons, Bool.or_eq_false_iff] at hf'
+            simp only [redirMF]
+            cases hm : m pat path with
+            | none => simp only; exact ih (by simp [redirectFires, hf'.2]) (by simpa [redirectFires] using hf'.2)
+            | some mt => simp [hm] at hf'
+        rw [← firstRedirect_eq_spec m path reds hmf0, hnone]
+        simp only
+        intro hs hmf
+        have := termSubs_eq_spec m subs path
+        cases hss : specSubs m subs path
+        · rename_i t'
+          rw [hss] at hs this
+          simp only at hs
+          subst hs
+          simp only at this
+          rw [this t rfl hmf]
+        · rw [hss] at hs this
+          simp only at hs this
+          rw [this]
+          cases hs; rfl
+        · rw [hss] at hs; cases hs
+  theorem termSubs_eq_spec (m : Matcher) : ∀ (s : Subs) (path : QStr),
+      match specSubs m s path with
+      | .found t' => ∀ t, t' = some t → subsMF m s path = true → termSubs m s path = some t
+      | .outside => True
+      | .nomatch => termSubs m s path = none
+    | .nil, path => by simp [specSubs, termSubs]
+    | .cons pat child rest, path => by
+      rw [specSubs, termSubs, subsMF]
+      cases h : m pat path with
+      | none => simp only; exact termSubs_eq_spec m rest path
+      | some mt =>
+        simp only
+        by_cases hi : mt.idx = 0
+        · simp only [hi, if_true]
+          intro t ht hmf
+          rw [termOf_eq_spec m child _ t ht hmf]
+        · simp [hi]
+end
+
+/-- **C05.2** when no consulted middleware refuses, inside the documented domain (`specRoute`
+    defined) and with marker-free captures for the redirect that fires, routing performs exactly
+    the terminal action the documentation selects -/
+theorem route_eq_spec (m : Matcher) (n : Node) (path : QStr) (t : Act)
+    (hacc : noRefusal (route m n path) = true) (hspec : specRoute m n path = some t)
+    (hmf : routeMF m n path = true) : terminal (route m n path) = some t := by
+  have ht := termOf_eq_spec m n path t hspec hmf
+  rw [noRefusal_route] at hacc
+  rw [route_struct, tailOf, hacc, if_pos rfl, ht]
+  exact terminal_append_single _ _ (ht ▸ termOf_terminal m n path)
+
+/-! ### 3. the Server glue -/
+
+/-- **C05.3** the root sees the path without its first unit; no root: no routing (500) -/
+theorem serverRoute_root (m : Matcher) (r : Node) (p : QStr) :
+    serverRoute m (some r) p = some (route m r (p.drop 1)) ∧ serverRoute m none p = none := ⟨rfl, rfl⟩
+
+/-! ### 4. the Location value cannot break the header block -/
+
+def isHexUp (b : UInt8) : Bool := (48 ≤ b && b ≤ 57) || (65 ≤ b && b ≤ 70)
+
+theorem hexUp_isHexUp : ∀ n, n < 16 → isHexUp (hexUp n) = true := by decide
+
+theorem pctEncode_mem (keep : UInt8 → Bool) (bs : Bytes) :
+    ∀ b ∈ pctEncode keep bs, keep b = true ∨ b = 37 ∨ isHexUp b = true := by
+  induction bs with
+  | nil => simp [pctEncode]
+  | cons c cs ih =>
+    intro b hb
+    simp only [pctEncode, List.mem_append] at hb
+    rcases hb with hb | hb
+    · split at hb
+      · next hk => simp at hb; subst hb; exact Or.inl hk
+      · simp at hb
+        have hlt : c.toNat < 256 := UInt8.toNat_lt c
+        rcases hb with rfl | rfl | rfl
+        · exact Or.inr (Or.inl rfl)
+        · exact Or.inr (Or.inr (hexUp_isHexUp _ (by omega)))
+        · exact Or.inr (Or.inr (hexUp_isHexUp _ (by omega)))
+    · exact ih b hb
+
+/-- **C05.4** every byte of a Location value is a kept byte, '%' or an upper-case hex digit; in
+    particular no CR, LF or SP, whatever the captures contained -/
+theorem encodeLoc_clean (loc : QStr) :
+    ∀ b ∈ encodeLoc loc, (locKeep b = true ∨ b = 37 ∨ isHexUp b = true) ∧ b ≠ 13 ∧ b ≠ 10 ∧ b ≠ 32 := by
+  intro b hb
+  have h := pctEncode_mem locKeep _ b hb
+  refine ⟨h, ?_, ?_, ?_⟩ <;> (intro e; subst e; revert h; decide)
+
+/-! ### non-vacuity and the excluded points (all evaluated in the kernel) -/
+
+namespace Ex
+/-- a toy `QRegExp`: 0 = `^a/`, 1 = `x` found at index 1 (not anchored), 2 = `^(.)/(.)$`, 3 = `^(.)(.)$` -/
+def toyM : Matcher := fun pat s =>
+  match pat, s with
+  | 0, 97 :: 47 :: _ => some ⟨0, 2, []⟩
+  | 1, _ :: 120 :: _ => some ⟨1, 1, []⟩
+  | 2, [a, 47, b] => some ⟨0, 3, [[a], [b]]⟩
+  | 3, [a, b] => some ⟨0, 2, [[a], [b]]⟩
+  | _, _ => none
+
+/-- "/%2/%1" -/
+def tmpl21 : QStr := [47, 37, 50, 47, 37, 49]
+def leaf (ok : Bool) : Node := .mk 2 [(20, ok)] [(2, tmpl21)] .nil true
+def mid (ok ok2 : Bool) : Node := .mk 1 [(10, true), (11, ok)] [] (.cons 0 (leaf ok2) .nil) false
+def root (ok ok2 : Bool) : Node := .mk 0 [(0, true)] [(2, tmpl21)] (.cons 0 (mid ok ok2) .nil) false
+/-- "a/a/b/c" -/
+def path : QStr := [97, 47, 97, 47, 98, 47, 99]
+
+example : route toyM (root true true) path =
+    [.mw 0 true, .mw 10 true, .mw 11 true, .mw 20 true, .redirect 2 [47, 99, 47, 98]] := by decide
+example : specRoute toyM (root true true) path = some (.redirect 2 [47, 99, 47, 98]) := by decide
+example : routeMF toyM (root true true) path = true := by decide
+example : noRefusal (route toyM (root true true) path) = true := by decide
+example : route toyM (root false true) path = [.mw 0 true, .mw 10 true, .mw 11 false] := by decide
+example : chain toyM (root false true) path = [(0, true), (10, true), (11, false), (20, true)] := by decide
+/-- not start-anchored sub pattern: outside the documented domain -/
+def rootU : Node := .mk 0 [] [] (.cons 1 (leaf true) .nil) true
+example : specRoute toyM rootU [98, 120, 99] = none := by decide
+example : route toyM rootU [98, 120, 99] = [.mw 20 true, .process 2 [120, 99]] := by decide
+
+/-- templates / captures as ASCII -/
+def q (s : List Char) : QStr := s.map fun c => UInt16.ofNat c.toNat
+
+-- the hypotheses of `substitute_eq_specSubst_of_separated` are satisfiable …
+example : Separated (q ['/','%','2','/','%','1']) = true ∧ Separated (q ['/','%','1','%','1']) = true ∧
+    Separated (q ['/','n','/','%','L','1','/','%','1','2','x','%']) = true := by decide
+example : Plain (q ['1','2','3']) = true ∧ Plain [] = true ∧ Plain (q ['5','0','%','x','%','%','y']) = true := by decide
+-- … and every clause is needed (known finding D12 and its relatives):
+-- a capture that contains a marker
+example : substitute (q ['/','%','1','/','%','2']) [q ['a','%','2'], q ['x']] = q ['/','a','x','/','x'] ∧
+    specSubst (q ['/','%','1','/','%','2']) [q ['a','%','2'], q ['x']] = q ['/','a','%','2','/','x'] ∧
+    Plain (q ['a','%','2']) = false := by decide
+-- a capture that ends in '%', followed in the template by a digit
+example : substitute (q ['/','%','1','0','5']) [q ['%'], q ['x']] = q ['/','x'] ∧
+    specSubst (q ['/','%','1','0','5']) [q ['%'], q ['x']] = q ['/','%','5'] ∧
+    Separated (q ['/','%','1','0','5']) = true ∧ Plain (q ['%']) = false := by decide
+-- a template marker glued to a pending '%' and a capture that starts with a digit
+example : substitute (q ['/','%','%','1']) [q ['1','2','3'], q ['x']] = q ['/','x','3'] ∧
+    specSubst (q ['/','%','%','1']) [q ['1','2','3'], q ['x']] = q ['/','%','1','2','3'] ∧
+    Separated (q ['/','%','%','1']) = false ∧ Plain (q ['1','2','3']) = true := by decide
+-- a one-digit marker directly followed by a lower one
+example : substitute (q ['/','%','2','%','1']) [q ['3'], q ['x']] = q ['/','x'] ∧
+    specSubst (q ['/','%','2','%','1']) [q ['3'], q ['x']] = q ['/','x','3'] ∧
+    Separated (q ['/','%','2','%','1']) = false := by decide
+-- `MarkerFree` (the exact, semantic condition) separates the cases above
+example : MarkerFree (q ['/','%','1','/','%','2']) [q ['a','%','2'], q ['x']] = false ∧
+    MarkerFree (q ['/','%','1','/','%','2']) [q ['a','%'], q ['2']] = true := by decide
+end Ex
 
 end Qhttp.C05
